@@ -1,13 +1,14 @@
 #!/bin/sh
 # tools/mutrun.sh <patch.diff> <Cnn> [Cnn...]   — run checks against a seeded change in the private mutation sandbox
-# (worktree /var/tmp/mutrepo + build cache /var/tmp/mutcache), leaving /repo and the shared build untouched.
+# (worktree $MR + build cache $MC), leaving /repo and the shared build untouched.
 set -u
 # one mutation run at a time (the sandbox worktree is shared)
-exec 9>/var/tmp/mutrun.lock; flock 9
+L=${MUTLANE:-}; MR=/var/tmp/mutrepo$L; MC=/var/tmp/mutcache$L
+exec 9>/var/tmp/mutrun$L.lock; flock 9
 PATCH=$(realpath "$1"); shift
-git -C /var/tmp/mutrepo checkout -q -- . && git -C /var/tmp/mutrepo checkout -q --detach $(git -C /repo rev-parse HEAD) && git -C /var/tmp/mutrepo apply "$PATCH" || { echo "patch does not apply"; exit 3; }
-export VERIF_REPO=/var/tmp/mutrepo VERIF_CACHE=/var/tmp/mutcache VERIF_EVIDENCE_DIR=/var/tmp/mutcache/evidence
+git -C $MR checkout -q -- . && git -C $MR checkout -q --detach $(git -C /repo rev-parse HEAD) && git -C $MR apply "$PATCH" || { echo "patch does not apply"; exit 3; }
+export VERIF_REPO=$MR VERIF_CACHE=$MC VERIF_EVIDENCE_DIR=$MC/evidence
 for p in "$@"; do
   echo "== $p"; /verif/bin/check "$p" 2>/dev/null | grep -E "^(VIOLATION|OK|ERROR)" | head -6
 done
-git -C /var/tmp/mutrepo checkout -q -- .
+git -C $MR checkout -q -- .
